@@ -206,6 +206,18 @@ def decision_errors(ctx, crate, crs, tag):
         ctx.ob(R, fn, "decision-level-is-not-a-constant", not lv_const, where_call(b, i),
                "the decision is recorded at a level computed by the caller" if not lv_const else
                "the decision is recorded at a constant level: a later backjump cannot undo the decisions below it on the trail")
+        if how == "match":
+            # hand-written `match .. { Ok(d) => d, Err(()) => return Err(PropagationError::Conflict(..)) }`: same as map_err + `?`
+            for c in q.conds(b, crs):
+                if c.kind == "discr" and c.src and c.src.get("k") == "call" and c.src.get("bb") == i and not c.src.get("proj"):
+                    et, ot = c.target("Err"), c.target("Ok")
+                    if et is None or ot is None:
+                        continue
+                    region = b.reachable([et])
+                    builds = any(s_["r"]["k"] == "agg" and s_["r"].get("adt") == PERR and s_["r"].get("variant") == "Conflict"
+                                 for x in region for s_ in b.blocks[x]["stmts"] if s_["k"] == "assign")
+                    if builds and ot not in region and (set(b.return_blocks()) & region):
+                        how = "map_err->?"
         ok = how in ("expect", "map_err->?")
         ctx.ob(R, fn, "try_add_decision:%s" % (how or "dropped"), ok, where_call(b, i),
                "the outcome of try_add_decision is asserted or converted into a Conflict and propagated" if ok else
@@ -226,6 +238,15 @@ def decision_errors(ctx, crate, crs, tag):
                     od, _ = q.origin_thru(b, o, transparent=set())
                     if q.same_origin(od, reason) or (od.get("l") == reason.get("l") and od["k"] == reason["k"]):
                         okr = True
+            if cd is None and reason is not None:
+                # match form: the Conflict aggregate is built in this body
+                for bi, bj, s_ in b.assigns():
+                    r_ = s_["r"]
+                    if r_["k"] == "agg" and r_.get("adt") == PERR and r_.get("variant") == "Conflict":
+                        for o in r_["ops"]:
+                            od, _ = q.origin_thru(b, o, transparent=set())
+                            if q.same_origin(od, reason) or (od.get("l") == reason.get("l") and od["k"] == reason["k"]):
+                                okr = True
             ctx.ob(R, fn, "conflict-names-deciding-clause", okr, where_call(b, i),
                    "the Conflict error refers to the clause that forced the decision")
 
@@ -389,6 +410,22 @@ def backjump_level(ctx, crate, crs, tag, b, uu):
                             # and a literal is pushed to the learnt clause on the same path
                             pushes = [ii for ii, tt in cb.calls() if tt.get("f") and tt["f"]["name"] == "push"]
                             ok = has_self and has_level and any(cb.dominates(pi, i) for pi in pushes)
+                        if not ok and d["k"] == "call" and d["t"]["f"]["name"] == "level":
+                            # `if x < level { x = level }` - the same running maximum written as a guarded assignment
+                            def is_self(o):
+                                x = q.origin_thru(cb, o, transparent=set())[0]
+                                return x["k"] == "arg" and x["l"] == 1 and any(isinstance(e, dict) and e.get("f") == k for e in x.get("proj", []))
+
+                            def is_level(o):
+                                x = q.origin_thru(cb, o, transparent=set())[0]
+                                return x["k"] == "call" and x["t"]["f"]["name"] == "level"
+                            for c in q.conds(cb, crs):
+                                if c.kind != "cmp":
+                                    continue
+                                lt = (c.op in ("Lt", "Le") and is_self(c.a) and is_level(c.b)) or (c.op in ("Gt", "Ge") and is_level(c.a) and is_self(c.b))
+                                if lt and q.edge_dominates(cb, c.bb, c.target(True), i):
+                                    pushes = [ii for ii, tt in cb.calls() if tt.get("f") and tt["f"]["name"] == "push"]
+                                    ok = any(cb.dominates(pi, c.bb) for pi in pushes)
                         ctx.ob(R, cb.key, "backjump-level-is-running-max", ok, "%s:%s" % (cb.file, s["line"]),
                                "the backtrack level is raised to max(itself, level(literal)) when that literal joins the learnt clause")
         # learnt literal = (variable, its currently assigned value): false under the current assignment
